@@ -10,7 +10,7 @@
    theorem is named [_partial] and carries the exclusion as a computable predicate, and a
    [_refuted] theorem exhibits the witness (each replayed on the implementation by the harness). *)
 From PV Require Import Spec.ListSpec Proofs.ContainerBase Proofs.ContainerSeqOf
-                       Proofs.ContainerChoice Proofs.ContainerRecord.
+                       Proofs.ContainerChoice Proofs.ContainerRecord Proofs.ContainerSortKey.
 Local Open Scope nat_scope.
 
 (* ------------------------------------------------------------------------------------------ *)
@@ -36,6 +36,27 @@ Print Assumptions C19_refines_seqof_step.
 Theorem C19_spec_sort_sorts : forall l, Sorted.LocallySorted Z.le (zsort l) /\ Permutation.Permutation l (zsort l).
 Proof. exact (fun l => conj (zsort_sorted l) (zsort_perm l)). Qed.
 Print Assumptions C19_spec_sort_sorts.
+
+(* sort(key=..., reverse=...): the prototype is Python's list.sort, stable in both directions (Proofs/ContainerSortKey.v:
+   [py_sorted]); members that tie under the key keep their relative order, also with reverse=True *)
+Theorem C19_sort_key_stable : forall (A: Type) (key: A -> Z) (r: bool) (k: Z) (l: list A),
+  tied key k (py_sorted key r l) = tied key k l /\ Permutation.Permutation l (py_sorted key r l) /\
+  ordered key Z.le (py_sorted key false l) /\ ordered key Z.ge (py_sorted key true l).
+Proof. exact (fun A key r k l => conj (py_sorted_stable key r k l) (conj (py_sorted_perm key r l) (py_sorted_ordered key l))). Qed.
+Print Assumptions C19_sort_key_stable.
+
+(* histories that also sort by key=int(x) % m, in either direction, refine the list driven by list.sort *)
+Theorem C19_refines_seqof_sortkey : forall ct isset ops a, lk_wf_hist ct isset a ops = true ->
+  sofk_run ct isset (conc a) ops = (conc (fst (lk_run isset a ops)), snd (lk_run isset a ops)).
+Proof. exact sofk_refines. Qed.
+Print Assumptions C19_refines_seqof_sortkey.
+
+(* sorting ascending and reversing afterwards is another function: it reverses the ties *)
+Theorem C19_sort_then_reverse_differs :
+  exists (key: Z -> Z) l, py_sorted key true l <> rev (py_sorted key false l) /\
+                          py_sorted key true l = [5; 12; 11; 21; 41]%Z.
+Proof. exact sort_then_reverse_differs. Qed.
+Print Assumptions C19_sort_then_reverse_differs.
 
 (* FULL STATEMENT (false today):  forall a o, sof_reader o = true -> fst (sof_step ct isset (conc a) o) = conc a.
    Proved outside the class of finding F18d (a position at or past the end read with instantiation). *)
